@@ -3,6 +3,8 @@
 markdown catch matrix for DESIGN.md"""
 import json, os, re, sys, glob
 SEEDED = "/verif/seeded"
+OWN = {"r3A_m1": "C07", "r3A_m2": "C06", "r3A_m3": "C06", "r3A_m4": "C07", "r3B_m1": "C04", "r3B_m2": "C03", "r3B_m3": "C08",
+       "r3B_m4": "C04", "r3C_m1": "C01", "r3C_m2": "C05", "r3C_m3": "C10", "r3C_m4": "C13", "r3C_m5": "C18"}
 res = {}
 rp = os.path.join(SEEDED, "results.json")
 if os.path.exists(rp):
@@ -24,13 +26,15 @@ def feed(path, label):
         res.setdefault(name, {}).setdefault(label, {})[prop] = {"verdict": verdict, "violation_lines": nv, "wall_s": t, "first_violation": first}
 for path, label in [("/verif/work_seed/summary_round1_v1.txt", "v1"),
                     ("/verif/work_seed/summary_v2.txt", "v2"),
-                    ("/verif/work_seed/summary.txt", "v3")]:
+                    ("/verif/work_seed/summary_v3a.txt", "v3"),
+                    ("/verif/work_seed/summary_v3b.txt", "v3"),
+                    ("/verif/work_seed/summary_v4.txt", "v4")]:
     if os.path.exists(path):
         feed(path, label)
 json.dump(res, open(rp, "w"), indent=1, sort_keys=True)
 if "--md" in sys.argv:
-    print("| change | breaks | v1 | v2 | v3 (committed) |")
-    print("|---|---|---|---|---|")
+    print("| change | breaks | v1 | v2 | v3 | v4 |")
+    print("|---|---|---|---|---|---|")
     f = lambda d: ", ".join("%s: %s" % (p, d[p]["verdict"]) for p in sorted(d)) or "-"
     for name in sorted(res):
-        print("| %s | %s | %s | %s | %s |" % (name, name.split("_")[0], f(res[name].get("v1", {})), f(res[name].get("v2", {})), f(res[name].get("v3", {}))))
+        print("| %s | %s | %s | %s | %s | %s |" % (name, OWN.get(name, name.split("_")[0]), f(res[name].get("v1", {})), f(res[name].get("v2", {})), f(res[name].get("v3", {})), f(res[name].get("v4", {}))))
